@@ -586,6 +586,7 @@ def run(ctx):
 
 
 SELFTEST = [
+    ('grid-gamma-memoised', 'pyerrors/dirac.py', 'def Grid_gamma(gamma_tag):', 'import functools\n\n\n@functools.lru_cache(maxsize=None)\ndef Grid_gamma(gamma_tag):', 'C20-D2'),
     ('benign-minus-prefix', 'pyerrors/dirac.py', "    if gamma_tag == 'Identity':", "    minus = gamma_tag.startswith('Minus')\n    if minus:\n        gamma_tag = gamma_tag[5:]\n    if gamma_tag == 'Identity':", 'BENIGN'),
     ('minus-inplace', 'pyerrors/dirac.py', "        raise ValueError('Unkown gamma structure', gamma_tag)\n", "        raise ValueError('Unkown gamma structure', gamma_tag)\n    if gamma_tag.endswith('5'):\n        g *= -1\n        g *= -1\n", 'C20-D2'),
     ('benign-grid-table', 'pyerrors/dirac.py', "    if gamma_tag == 'Identity':\n        g = identity", "    if gamma_tag in ('Identity', 'One'):\n        g = identity.copy()", 'BENIGN'),
